@@ -227,8 +227,12 @@ def gen_ser():
     b = function_body(uni, r"void\s+writeNormalizedData\s*\([^)]*\)\s*\{", "FormatterToXMLUnicode::writeNormalizedData")
     need(r"size_type\s+firstIndex\s*=\s*0\s*;\s*for\s*\(\s*size_type\s+i\s*=\s*0\s*;\s*i\s*<\s*theLength\s*;\s*\+\+i\s*\)\s*\{\s*const\s+XalanDOMChar\s+theChar\s*=\s*theData\s*\[\s*i\s*\]\s*;"
          r"\s*if\s*\(\s*XalanUnicode::charLF\s*==\s*theChar\s*\)\s*\{\s*writeRawData\s*\(\s*theData\s*\+\s*firstIndex\s*,\s*i\s*-\s*firstIndex\s*,\s*isComment\s*\)\s*;\s*outputNewline\s*\(\s*\)\s*;\s*firstIndex\s*=\s*i\s*\+\s*1\s*;\s*\}"
-         r"\s*else\s+if\s*\(\s*m_charPredicate\.isCharRefForbidden\s*\(\s*theChar\s*\)\s*\)\s*\{\s*throwInvalidXMLCharacterException.*?\}\s*\}\s*writeRawData\s*\(\s*theData\s*\+\s*firstIndex\s*,\s*theLength\s*-\s*firstIndex\s*,\s*isComment\s*\)\s*;",
+         r"\s*else\s+if\s*\(\s*m_charPredicate\.isCharRefForbidden\s*\(\s*theChar\s*\)\s*"
+         r"(\|\|\s*XalanUnicode::charCR\s*==\s*theChar\s*\|\|\s*\(\s*XMLVersion\s*==\s*XML_VERSION_1_1\s*&&\s*\(\s*XalanUnicode::charNEL\s*==\s*theChar\s*\|\|\s*XalanUnicode::charLSEP\s*==\s*theChar\s*\)\s*\)\s*)?"
+         r"\)\s*\{\s*throwInvalidXMLCharacterException.*?\}\s*\}\s*writeRawData\s*\(\s*theData\s*\+\s*firstIndex\s*,\s*theLength\s*-\s*firstIndex\s*,\s*isComment\s*\)\s*;",
          b, "writeNormalizedData structure")
+    # variant: CR (1.1: NEL, LSEP) inside a comment / PI raises the error too (fixes/C04/06-K-new-1-comment-pi)
+    comment_eol_is_error = re.search(r"isCharRefForbidden\s*\(\s*theChar\s*\)\s*\|\|\s*XalanUnicode::charCR\s*==\s*theChar", b) is not None
     b = function_body(uni, r"void\s+writeRawData\s*\([^)]*\)\s*\{", "FormatterToXMLUnicode::writeRawData")
     need(r"if\s*\(\s*isComment\s*==\s*true\s*\)\s*\{\s*m_writer\.writeCommentChars\s*\(\s*theData\s*,\s*theLength\s*\)\s*;\s*\}\s*else\s*\{\s*m_writer\.writePIChars\s*\(\s*theData\s*,\s*theLength\s*\)\s*;\s*\}", b, "writeRawData structure")
     # CDATA look-ahead
@@ -279,6 +283,8 @@ def gen_ser():
     o += "Definition sur_sub_hi : N := %d.\nDefinition sur_shift : N := %d.\nDefinition sur_sub_lo : N := %d.\nDefinition sur_add : N := %d.\n" % tuple(num(x) for x in dm.groups())
     o += "\n(* FormatterToXMLUnicode::writeCDATAChars: ']]>' is split when length - i > k *)\n"
     o += "Definition cdata_lookahead_gt : N := %d.\n" % num(cm.group(1))
+    o += "\n(* FormatterToXMLUnicode::writeNormalizedData: CR (version 1.1: NEL, LSEP) in a comment or PI is an error *)\n"
+    o += "Definition comment_eol_is_error : bool := %s.\n" % ("true" if comment_eol_is_error else "false")
     facts = {"kbuf": [k8, k16, ko], "utf8_rows": [(u, g, len(st), d) for (u, g, st, d) in rows],
              "other_pair_guard": o_guard, "special10_nonzero": sum(1 for x in t10 if x), "special11_nonzero": sum(1 for x in t11 if x)}
     return o, facts
